@@ -30,6 +30,7 @@ Inductive ekind := KReadTimeout | KWriteTimeout | KUnavailable | KOverloaded | K
 
 Inductive resp :=
 | RRows | RVoid
+| RRowsMore                   (* ROWS with a paging state: more pages follow *)
 | RPrepared (id : Z)
 | RRetryable (k : ekind) (tag : Z)
 | RUnprepared (id : Z) (tag : Z)
@@ -70,7 +71,8 @@ Record config := {
   pol : policy;
   fut_ps : option pstmt;              (* ResponseFuture.prepared_statement *)
   known : list (Z * pstmt);           (* cluster._prepared_statements *)
-  pv : Z                              (* cluster.protocol_version *)
+  pv : Z;                             (* cluster.protocol_version *)
+  tgt : option host                   (* ResponseFuture._host: execute(..., host=h); must be the `target` given to init *)
 }.
 
 Record attempt := { a_host : host; a_prep : bool; a_done : bool }.
@@ -89,7 +91,8 @@ Record state := {
   fin_exc : option fexc;
   spec_armed : bool;           (* a live timer for _on_speculative_execute exists *)
   spec_left : Z;               (* ConstantSpeculativeExecutionPlan.remaining *)
-  conn_ks : option Z           (* keyspace of the session's connections *)
+  conn_ks : option Z;          (* keyspace of the session's connections *)
+  paging : bool                (* _paging_state is set: the last ROWS answer said there are more pages *)
 }.
 
 Inductive op :=
@@ -98,7 +101,8 @@ Inductive op :=
 | Run (k : nat)
 | Spec
 | SetPool (h : host) (p : pstate)
-| SetKs (k : option Z).
+| SetKs (k : option Z)
+| NextPage (p : list host).   (* start_fetching_next_page; p = the load balancer's plan for this page fetch *)
 
 (* ---------------------------------------------------------------- small helpers *)
 Fixpoint lookup {A} (l : list (Z * A)) (h : Z) : option A :=
@@ -138,20 +142,20 @@ Definition set_err (s : state) (h : host) (e : err) : state :=
   {| plan := plan s; consumed := consumed s; pools := pools s; msg_cl := msg_cl s; retries := retries s;
      nconsult := nconsult s; errors := upd (errors s) h e; queue := queue s; attempts := attempts s;
      fin_res := fin_res s; fin_exc := fin_exc s; spec_armed := spec_armed s; spec_left := spec_left s;
-     conn_ks := conn_ks s |}.
+     conn_ks := conn_ks s; paging := paging s |}.
 
 (* raw setters; the model uses fail_with / finish_with below (first outcome wins) *)
 Definition set_exc (s : state) (x : fexc) : state :=
   {| plan := plan s; consumed := consumed s; pools := pools s; msg_cl := msg_cl s; retries := retries s;
      nconsult := nconsult s; errors := errors s; queue := queue s; attempts := attempts s;
      fin_res := fin_res s; fin_exc := Some x; spec_armed := false; spec_left := spec_left s;
-     conn_ks := conn_ks s |}.
+     conn_ks := conn_ks s; paging := paging s |}.
 
 Definition set_res (s : state) (r : fres) : state :=
   {| plan := plan s; consumed := consumed s; pools := pools s; msg_cl := msg_cl s; retries := retries s;
      nconsult := nconsult s; errors := errors s; queue := queue s; attempts := attempts s;
      fin_res := Some r; fin_exc := fin_exc s; spec_armed := false; spec_left := spec_left s;
-     conn_ks := conn_ks s |}.
+     conn_ks := conn_ks s; paging := paging s |}.
 
 (* cluster.py (first-outcome-wins guard in _set_final_result/_set_final_exception): the timer is cancelled in any case, the
    outcome is stored only if none has been delivered yet *)
@@ -159,7 +163,7 @@ Definition cancel_timer (s : state) : state :=
   {| plan := plan s; consumed := consumed s; pools := pools s; msg_cl := msg_cl s; retries := retries s;
      nconsult := nconsult s; errors := errors s; queue := queue s; attempts := attempts s;
      fin_res := fin_res s; fin_exc := fin_exc s; spec_armed := false; spec_left := spec_left s;
-     conn_ks := conn_ks s |}.
+     conn_ks := conn_ks s; paging := paging s |}.
 
 Definition fail_with (s : state) (x : fexc) : state := if completed s then cancel_timer s else set_exc s x.
 Definition finish_with (s : state) (r : fres) : state := if completed s then cancel_timer s else set_res s r.
@@ -168,20 +172,26 @@ Definition push_task (s : state) (t : task) : state :=
   {| plan := plan s; consumed := consumed s; pools := pools s; msg_cl := msg_cl s; retries := retries s;
      nconsult := nconsult s; errors := errors s; queue := queue s ++ [t]; attempts := attempts s;
      fin_res := fin_res s; fin_exc := fin_exc s; spec_armed := spec_armed s; spec_left := spec_left s;
-     conn_ks := conn_ks s |}.
+     conn_ks := conn_ks s; paging := paging s |}.
 
 Definition add_attempt (s : state) (h : host) (prep : bool) : state :=
   {| plan := plan s; consumed := consumed s; pools := pools s; msg_cl := msg_cl s; retries := retries s;
      nconsult := nconsult s; errors := errors s; queue := queue s;
      attempts := attempts s ++ [{| a_host := h; a_prep := prep; a_done := false |}];
      fin_res := fin_res s; fin_exc := fin_exc s; spec_armed := spec_armed s; spec_left := spec_left s;
-     conn_ks := conn_ks s |}.
+     conn_ks := conn_ks s; paging := paging s |}.
 
 Definition take_host (s : state) (h : host) (rest : list host) : state :=
   {| plan := rest; consumed := consumed s ++ [h]; pools := pools s; msg_cl := msg_cl s; retries := retries s;
      nconsult := nconsult s; errors := errors s; queue := queue s; attempts := attempts s;
      fin_res := fin_res s; fin_exc := fin_exc s; spec_armed := spec_armed s; spec_left := spec_left s;
-     conn_ks := conn_ks s |}.
+     conn_ks := conn_ks s; paging := paging s |}.
+
+Definition set_paging (s : state) (b : bool) : state :=
+  {| plan := plan s; consumed := consumed s; pools := pools s; msg_cl := msg_cl s; retries := retries s;
+     nconsult := nconsult s; errors := errors s; queue := queue s; attempts := attempts s;
+     fin_res := fin_res s; fin_exc := fin_exc s; spec_armed := spec_armed s; spec_left := spec_left s;
+     conn_ks := conn_ks s; paging := b |}.
 
 Definition is_prepare (m : mkind) : bool := match m with MPrepare _ _ => true | _ => false end.
 
@@ -221,7 +231,7 @@ Definition bump_retry (s : state) (dcl : option Z) (t : task) : state :=
      retries := retries s + 1; nconsult := nconsult s; errors := errors s;
      queue := if keep then queue s else queue s ++ [t]; attempts := attempts s;
      fin_res := fin_res s; fin_exc := fin_exc s; spec_armed := spec_armed s; spec_left := spec_left s;
-     conn_ks := conn_ks s |}.
+     conn_ks := conn_ks s; paging := paging s |}.
 
 Definition handle_decision (s : state) (h : host) (k : ekind) (tag : Z) (d : decision) (dcl : option Z)
   : state * list event :=
@@ -240,7 +250,7 @@ Definition tick_consult (s : state) : state :=
   {| plan := plan s; consumed := consumed s; pools := pools s; msg_cl := msg_cl s; retries := retries s;
      nconsult := S (nconsult s); errors := errors s; queue := queue s; attempts := attempts s;
      fin_res := fin_res s; fin_exc := fin_exc s; spec_armed := spec_armed s; spec_left := spec_left s;
-     conn_ks := conn_ks s |}.
+     conn_ks := conn_ks s; paging := paging s |}.
 
 (* ---------------------------------------------------------------- _set_result (h = host of the attempt) *)
 Definition uses_ks (c : config) : bool := uses_keyspace_flag (pv c).
@@ -269,7 +279,8 @@ Definition unprepared (c : config) (s : state) (h : host) (id tag : Z) : state *
 
 Definition set_result (c : config) (s : state) (h : host) (r : resp) : state * list event :=
   match r with
-  | RRows => (finish_with s FRows, [])
+  | RRows => (finish_with (set_paging s false) FRows, [])          (* self._paging_state = response.paging_state, then the result *)
+  | RRowsMore => (finish_with (set_paging s true) FRows, [])
   | RVoid => (finish_with s FNone, [])
   | RPrepared _ => (finish_with s FMsg, [])
   | RRetryable k tag =>
@@ -300,7 +311,7 @@ Definition after_prepare (c : config) (s : state) (h : host) (r : resp) : state 
           else query_or_next s h (MOrig (msg_cl s)) CResend
       | None => query_or_next s h (MOrig (msg_cl s)) CResend
       end
-  | RRows | RVoid => (fail_with s XUnexpected, [])
+  | RRows | RRowsMore | RVoid => (fail_with s XUnexpected, [])
   | RRetryable k tag =>
       if is_conn_kind k
       then let s1 := set_err s h (EResp k tag) in
@@ -325,20 +336,20 @@ Definition set_queue (s : state) (q : list task) : state :=
   {| plan := plan s; consumed := consumed s; pools := pools s; msg_cl := msg_cl s; retries := retries s;
      nconsult := nconsult s; errors := errors s; queue := q; attempts := attempts s;
      fin_res := fin_res s; fin_exc := fin_exc s; spec_armed := spec_armed s; spec_left := spec_left s;
-     conn_ks := conn_ks s |}.
+     conn_ks := conn_ks s; paging := paging s |}.
 
 Definition set_attempts (s : state) (a : list attempt) : state :=
   {| plan := plan s; consumed := consumed s; pools := pools s; msg_cl := msg_cl s; retries := retries s;
      nconsult := nconsult s; errors := errors s; queue := queue s; attempts := a;
      fin_res := fin_res s; fin_exc := fin_exc s; spec_armed := spec_armed s; spec_left := spec_left s;
-     conn_ks := conn_ks s |}.
+     conn_ks := conn_ks s; paging := paging s |}.
 
 (* ---------------------------------------------------------------- speculative timer *)
 Definition set_spec (s : state) (armed : bool) (left : Z) : state :=
   {| plan := plan s; consumed := consumed s; pools := pools s; msg_cl := msg_cl s; retries := retries s;
      nconsult := nconsult s; errors := errors s; queue := queue s; attempts := attempts s;
      fin_res := fin_res s; fin_exc := fin_exc s; spec_armed := armed; spec_left := left;
-     conn_ks := conn_ks s |}.
+     conn_ks := conn_ks s; paging := paging s |}.
 
 (* _start_timer with timeout=None: arm a speculative timer iff the plan still yields a delay *)
 Definition start_timer (s : state) : state :=
@@ -358,7 +369,25 @@ Definition set_env (s : state) (p : list (host * pstate)) (k : option Z) : state
   {| plan := plan s; consumed := consumed s; pools := p; msg_cl := msg_cl s; retries := retries s;
      nconsult := nconsult s; errors := errors s; queue := queue s; attempts := attempts s;
      fin_res := fin_res s; fin_exc := fin_exc s; spec_armed := spec_armed s; spec_left := spec_left s;
-     conn_ks := k |}.
+     conn_ks := k; paging := paging s |}.
+
+Definition make_plan (lb_plan : list host) (target : option host) : list host :=
+  match target with Some h => [h] | None => lb_plan end.
+
+(* DSE graph analytics request (Session._on_analytics_master_result): the plan is re-made through DefaultLoadBalancingPolicy
+   with the analytics master as target: the master first, then the policy's plan without it *)
+Definition replan_master (m : host) (lb_plan : list host) : list host :=
+  m :: filter (fun h => negb (h =? m)) lb_plan.
+
+(* start_fetching_next_page (after the QueryExhausted test): a fresh plan (_make_query_plan: the explicit host again, or the
+   load balancer's plan for this fetch), outcome cleared, the old timer dropped and a new one started, then send_request.
+   _errors, _query_retries, attempted_hosts are NOT reset by the source. *)
+Definition page_start (c : config) (s : state) (p : list host) : state :=
+  start_timer
+  {| plan := make_plan p (tgt c); consumed := consumed s; pools := pools s; msg_cl := msg_cl s; retries := retries s;
+     nconsult := nconsult s; errors := errors s; queue := queue s; attempts := attempts s;
+     fin_res := None; fin_exc := None; spec_armed := false; spec_left := spec_left s;
+     conn_ks := conn_ks s; paging := paging s |}.
 
 (* ---------------------------------------------------------------- one step *)
 Definition step (c : config) (s : state) (o : op) : state * list event :=
@@ -381,6 +410,7 @@ Definition step (c : config) (s : state) (o : op) : state * list event :=
   | Spec => spec_fire s
   | SetPool h p => (set_env s (upd (pools s) h p) (conn_ks s), [])
   | SetKs k => (set_env s (pools s) k, [])
+  | NextPage p => if paging s then send_request (page_start c s p) true else (s, [])     (* else: raises QueryExhausted *)
   end.
 
 (* run a history; the trace pairs every op's events with the state after it *)
@@ -402,15 +432,14 @@ Fixpoint exec (c : config) (s : state) (ops : list op) : state * list event :=
 Definition spec_gate (idempotent has_policy : bool) (max_attempts : Z) : Z :=
   if idempotent && has_policy then max_attempts else 0.
 
-Definition make_plan (lb_plan : list host) (target : option host) : list host :=
-  match target with Some h => [h] | None => lb_plan end.
 
 Definition init (lb_plan : list host) (target : option host) (pl : list (host * pstate)) (cl : option Z)
            (idempotent has_policy : bool) (max_attempts : Z) (ks : option Z) : state :=
   start_timer
   {| plan := make_plan lb_plan target; consumed := []; pools := pl; msg_cl := cl; retries := 0; nconsult := 0%nat;
      errors := []; queue := []; attempts := []; fin_res := None; fin_exc := None;
-     spec_armed := false; spec_left := spec_gate idempotent has_policy max_attempts; conn_ks := ks |}.
+     spec_armed := false; spec_left := spec_gate idempotent has_policy max_attempts; conn_ks := ks;
+     paging := false |}.
 
 (* ---------------------------------------------------------------- observation encoding (correspondence only) *)
 Definition enc_opt (o : option Z) : list Z := match o with None => [0] | Some z => [1; z] end.
@@ -430,7 +459,7 @@ Definition enc_event (e : event) : list Z :=
   end.
 Definition enc_resp (r : resp) : list Z :=
   match r with
-  | RRows => [0] | RVoid => [1] | RPrepared id => [2; id] | RRetryable k tag => [3; enc_kind k; tag]
+  | RRows => [0] | RRowsMore => [8] | RVoid => [1] | RPrepared id => [2; id] | RRetryable k tag => [3; enc_kind k; tag]
   | RUnprepared id tag => [4; id; tag] | ROtherError tag => [5; tag] | ROtherExc tag => [6; tag] | RJunk => [7]
   end.
 Definition enc_task (t : task) : list Z :=
@@ -457,7 +486,7 @@ Definition enc_obs (o : list event * state) : list Z :=
   ++ Z.of_nat (length (queue s)) :: flat_map enc_task (queue s)
   ++ enc_opt (option_map enc_fres (fin_res s))
   ++ match fin_exc s with None => [0] | Some x => 1 :: enc_fexc x end
-  ++ [if spec_armed s then 1 else 0].
+  ++ [if spec_armed s then 1 else 0; if paging s then 1 else 0].
 
 Definition trace (c : config) (s : state) (ops : list op) : list Z := flat_map enc_obs (run c s ops).
 
